@@ -77,6 +77,7 @@ pub trait World: 'static {
 
     fn set_poison(seed: Option<u64>);
     fn poison_words() -> u64;
+    fn set_sched_hook(hook: Option<fn(u32)>);
 
     // bigint free functions
     fn small_add(x: &mut Self::V, y: u64) -> Option<()>;
@@ -242,6 +243,9 @@ macro_rules! world {
             fn poison_words() -> u64 {
                 $krate::verif::words_drawn()
             }
+            fn set_sched_hook(hook: Option<fn(u32)>) {
+                $krate::verif::set_sched_hook(hook)
+            }
 
             #[inline]
             fn small_add(x: &mut Self::V, y: u64) -> Option<()> {
@@ -385,4 +389,13 @@ pub fn set_poison_all(seed: Option<u64>) {
     WAlloc::set_poison(seed.map(|s| s ^ 0x2222));
     WCompactAlloc::set_poison(seed.map(|s| s ^ 0x3333));
     WNostdCompact::set_poison(seed.map(|s| s ^ 0x4444));
+}
+
+/// Install the library-side scheduling-point callback in every linked configuration.
+pub fn set_sched_hook_all(hook: Option<fn(u32)>) {
+    WDefault::set_sched_hook(hook);
+    WCompact::set_sched_hook(hook);
+    WAlloc::set_sched_hook(hook);
+    WCompactAlloc::set_sched_hook(hook);
+    WNostdCompact::set_sched_hook(hook);
 }
